@@ -95,6 +95,7 @@ type sfield struct {
 	optional  bool
 	depth     int
 	omitEmpty bool
+	desc      string // jsonschema tag
 }
 
 func structFieldsOf(t reflect.Type) []sfield { return structFieldsAt(t, 0) }
@@ -133,7 +134,7 @@ func structFieldsAt(t reflect.Type, depth int) []sfield {
 				omitEmpty = true
 			}
 		}
-		out = append(out, sfield{name, f.Type, optional, depth, omitEmpty})
+		out = append(out, sfield{name, f.Type, optional, depth, omitEmpty, f.Tag.Get("jsonschema")})
 	}
 	if depth > 0 {
 		return out
